@@ -53,7 +53,7 @@ func pad(s string, n int) []byte {
 	return b
 }
 
-func bls(k string) []byte      { return pad("bls-"+k, 96) }
+func bls(k string) []byte       { return pad("bls-"+k, 96) }
 func ownerAddr(o string) []byte { return pad("owner-"+o, 32) }
 func rewardAddr(o string) []byte {
 	return pad("reward-"+o, 32)
@@ -132,6 +132,23 @@ func newSut(conf M) *sut {
 	if rc := w.Init(vm.StakingSCAddress, ownerAddr("genesis"), nil); rc != vmcommon.Ok {
 		panic("staking init failed")
 	}
+	// the real validator SC (used by the validator-driven histories; the direct histories never call it)
+	validator, err := systemSmartContracts.NewValidatorSmartContract(systemSmartContracts.ArgsValidatorSmartContract{
+		StakingSCConfig: args.StakingSCConfig, GenesisTotalSupply: big.NewInt(1000000000), Eei: w.Eei,
+		SigVerifier: &mock.MessageSignVerifierMock{}, StakingSCAddress: vm.StakingSCAddress,
+		ValidatorSCAddress: vm.ValidatorSCAddress, Marshalizer: marsh, EpochNotifier: &mock.EpochNotifierStub{},
+		EndOfEpochAddress: vm.EndOfEpochAddress, MinDeposit: "0", DelegationMgrSCAddress: vm.DelegationManagerSCAddress,
+		GovernanceSCAddress: vm.GovernanceSCAddress, DelegationMgrEnableEpoch: 1000, EpochConfig: args.EpochConfig,
+		ShardCoordinator: &mock.ShardCoordinatorStub{},
+	})
+	if err != nil {
+		panic(err)
+	}
+	var vh epochHandler = validator
+	vh.EpochConfirmed(1, 0)
+	if err = w.Container.Add(vm.ValidatorSCAddress, validator); err != nil {
+		panic(err)
+	}
 	return s
 }
 
@@ -187,6 +204,26 @@ func (s *sut) apply(a string, in M) bool {
 		return call(pick(auth, eoe, val), "updateConfigMaxNodes", nbytes(vtrace.Int(in["n"])))
 	case "UpdateMin":
 		return call(pick(auth, eoe, val), "updateConfigMinNodes", nbytes(vtrace.Int(in["n"])))
+	case "VStake", "VUnStake", "VUnStakeNodes", "VUnBond", "VUnBondNodes", "VReStake", "VUnJail":
+		// a wallet calls the real validator SC, which calls the staking SC through eei.ExecuteOnDestContext
+		o := in["o"].(string)
+		var keys [][]byte
+		for _, kk := range vtrace.Strs(norm(in["ks"])) {
+			keys = append(keys, bls(kk))
+		}
+		value := big.NewInt(int64(vtrace.Int(in["v"])))
+		var cargs [][]byte
+		fn := map[string]string{"VStake": "stake", "VUnStake": "unStake", "VUnStakeNodes": "unStakeNodes", "VUnBond": "unBond",
+			"VUnBondNodes": "unBondNodes", "VReStake": "reStakeUnStakedNodes", "VUnJail": "unJail"}[a]
+		if a == "VStake" {
+			cargs = append(cargs, nbytes(len(keys)))
+			for _, kb := range keys {
+				cargs = append(cargs, kb, []byte("signed"))
+			}
+		} else {
+			cargs = keys
+		}
+		return w.Call(vm.ValidatorSCAddress, ownerAddr(o), fn, cargs, value).Code == vmcommon.Ok
 	case "Elapse":
 		w.Nonce += period
 		w.Round += period
@@ -320,6 +357,7 @@ func replay(path, mismatchOut string) {
 	distinct := vtrace.NewDistinct()
 	steps, mism, kdSeen, kdNot := 0, 0, 0, 0
 	acts := map[string]int{}
+	okActs := map[string]int{}
 	for bi, b := range bs {
 		var s *sut
 		type obs struct {
@@ -342,6 +380,9 @@ func replay(path, mismatchOut string) {
 			ok := s.apply(stp.A, stp.In)
 			st := s.proj()
 			steps++
+			if ok {
+				okActs[stp.A]++
+			}
 			seen = append(seen, obs{stp.A, stp.In, M{"ok": ok}, st})
 			// slim behaviours carry the predicted state only in their last record
 			eq := ok == stp.Out["ok"].(bool) && (len(stp.St) == 0 || same(stp.St, st))
@@ -403,6 +444,7 @@ func replay(path, mismatchOut string) {
 	vtrace.Stat("known_deviation_reproduced", kdSeen)
 	vtrace.Stat("known_deviation_not_reproduced", kdNot)
 	vtrace.Stat("last_actions", acts)
+	vtrace.Stat("ok_actions", okActs)
 }
 
 var allKeys = []string{"a", "b", "c", "d", "e", "f", "g", "h"}
@@ -519,6 +561,127 @@ func record(seed int64, traces, n, nkeys int, out string) {
 	vtrace.Stat("actions", acts)
 }
 
+// recordv: histories in which the staking SC is reached the way it is in production -- wallets call the REAL validator
+// SC (stake / unStake / unStakeNodes / unBond / unBondNodes / reStakeUnStakedNodes / unJail with several keys), which
+// calls the staking SC through eei.ExecuteOnDestContext (where the writes of a failed inner call survive) -- mixed
+// with the end-of-epoch / jailing calls.  These traces are only observed by TLC (no specification of the validator
+// SC is involved): every C39 invariant is evaluated on every observed state.
+func recordv(seed int64, traces, n, nkeys int, out string) {
+	w, err := vtrace.NewWriter(out)
+	if err != nil {
+		vtrace.Broken(err.Error())
+		return
+	}
+	rng := rand.New(rand.NewSource(seed))
+	keys := allKeys[:nkeys]
+	peers := []string{"none", "none", "eligible", "jailed", "bad"}
+	acts := map[string]int{}
+	okCalls := 0
+	for t := 0; t < traces; t++ {
+		own := M{}
+		byOwner := map[string][]string{}
+		for _, k := range keys {
+			own[k] = ownOf(k)
+			byOwner[ownOf(k)] = append(byOwner[ownOf(k)], k)
+		}
+		cmin := 1 + rng.Intn(2)
+		cmax := cmin + rng.Intn(3)
+		clu := rng.Intn(3) != 0
+		conf := norm(M{"enable": true, "v2": true, "clu": clu, "cmin": cmin, "cmax": cmax, "ubp": rng.Intn(3) != 0, "own": own}).(map[string]interface{})
+		s := newSut(conf)
+		w.NewTraceWith("New", conf, M{"ok": true}, s.proj())
+		some := func(o string) []string {
+			ks := byOwner[o]
+			m := 1 + rng.Intn(2)
+			if rng.Intn(6) == 0 {
+				m = len(ks)
+			}
+			res := []string{}
+			for _, i := range rng.Perm(len(ks)) {
+				if len(res) < m {
+					res = append(res, ks[i])
+				}
+			}
+			return res
+		}
+		for i := 0; i < n; i++ {
+			o := []string{"o1", "o2"}[rng.Intn(2)]
+			k := keys[rng.Intn(nkeys)]
+			var a string
+			var in M
+			switch r := rng.Intn(100); {
+			case r < 24:
+				ks := some(o)
+				v := len(ks) * nodePrice
+				switch rng.Intn(6) {
+				case 0:
+					v = 0 // rely on what is already deposited
+				case 1:
+					v += nodePrice // top up
+				}
+				a, in = "VStake", M{"o": o, "ks": ks, "v": v}
+			case r < 36:
+				a, in = "VUnStake", M{"o": o, "ks": some(o), "v": 0}
+			case r < 40:
+				a, in = "VUnStakeNodes", M{"o": o, "ks": some(o), "v": 0}
+			case r < 47:
+				a, in = "VUnBond", M{"o": o, "ks": some(o), "v": 0}
+			case r < 50:
+				a, in = "VUnBondNodes", M{"o": o, "ks": some(o), "v": 0}
+			case r < 55:
+				a, in = "VReStake", M{"o": o, "ks": some(o), "v": 0}
+			case r < 65:
+				kk := byOwner[o][rng.Intn(len(byOwner[o]))]
+				a, in = "UnJail", M{"k": kk, "auth": true, "via": "validator"}
+			case r < 68:
+				ks := some(o)
+				a, in = "VUnJail", M{"o": o, "ks": ks, "v": len(ks)}
+			case r < 78:
+				a, in = "Switch", M{"k": k, "auth": true}
+			case r < 84:
+				a, in = "Jail", M{"k": k, "auth": true}
+			case r < 88:
+				a, in = "UnStakeEoE", M{"k": k, "auth": true}
+			case r < 91:
+				free := vtrace.Int(s.proj()["cfg"].(M)["max"]) - vtrace.Int(s.proj()["cfg"].(M)["staked"])
+				nn := 0
+				if free > 0 {
+					nn = rng.Intn(free + 1)
+				}
+				a, in = "StakeFromQueue", M{"n": nn, "auth": true}
+			case r < 93:
+				a, in = "CleanQueue", M{"auth": true}
+			case r < 94:
+				a, in = "ResetLastUnJailed", M{"auth": true}
+			case r < 96:
+				a, in = "UpdateMax", M{"n": 1 + rng.Intn(5), "auth": true}
+			case r < 98:
+				a, in = "Elapse", M{"x": 0}
+			default:
+				a, in = "SetPeer", M{"k": k, "s": peers[rng.Intn(len(peers))]}
+			}
+			var ok bool
+			if a == "UnJail" { // single key through the validator SC (value = the unJail price)
+				ok = s.apply("VUnJail", M{"o": s.own[in["k"].(string)], "ks": []string{in["k"].(string)}, "v": 1})
+			} else {
+				ok = s.apply(a, in)
+			}
+			if ok {
+				okCalls++
+			}
+			acts[a]++
+			w.Emit(a, in, M{"ok": ok}, s.proj())
+		}
+	}
+	if err := w.Close(); err != nil {
+		vtrace.Broken(err.Error())
+	}
+	vtrace.Stat("events", w.N)
+	vtrace.Stat("traces", traces)
+	vtrace.Stat("ok_calls", okCalls)
+	vtrace.Stat("actions", acts)
+}
+
 // demo: the shortest history with the defect, then its consequence (an element orphaned by a later removal)
 func demo() {
 	own := M{"a": "o1", "b": "o2", "c": "o1", "d": "o2", "e": "o1"}
@@ -555,6 +718,12 @@ func main() {
 		n, _ := strconv.Atoi(os.Args[4])
 		nk, _ := strconv.Atoi(os.Args[5])
 		record(seed, traces, n, nk, os.Args[6])
+	case "recordv":
+		seed, _ := strconv.ParseInt(os.Args[2], 10, 64)
+		traces, _ := strconv.Atoi(os.Args[3])
+		n, _ := strconv.Atoi(os.Args[4])
+		nk, _ := strconv.Atoi(os.Args[5])
+		recordv(seed, traces, n, nk, os.Args[6])
 	case "demo":
 		demo()
 	default:
